@@ -353,6 +353,20 @@ def run_entries(spec, ctx):
                 ctx.violation('CircuitsDatabase.get_by_label', 'wrong_result', 'key_lost', 'key %s read by the own reader is not found' % k, CUR['case'])
         except Exception as e:
             ctx.unexpected('CircuitsDatabase.get_by_label', e, CUR['case'])
+        # the entry looked up through the normalising interface in denormalised forms: every output complemented (so each
+        # stored output is denormalised with a negation at least once) and a random negation / order pattern
+        if spec.get('variants', True) and (spec['sample'] >= 1.0 or rng.random() < 0.5):
+            try:
+                base_rows = [tuple(ch == '1' for ch in part) for part in k.split('_')]
+                allneg = [tuple(not v for v in r) for r in base_rows]
+                rnd = [tuple((not v) if f else v for v in r) for r, f in zip(base_rows, [rng.random() < 0.5 for _ in base_rows])]
+                rng.shuffle(rnd)
+                for rows_ in (allneg, rnd):
+                    do_lookup(db, name, rows_, ctx)
+                    ctx.count('entry_variant_lookups')
+            except Exception as e:
+                ctx.count('entry_variant_failed:' + type(e).__name__)
+            CUR['case'] = {'kind': 'entry', 'db': name, 'key': k}
         checked += 1
         ctx.count('entries:' + name)
         ctx.case('%s:%s' % (name, k), CUR['last_entry_nontrivial'], cls='entry:%s/%d_rows' % (name, nrows),
